@@ -1,7 +1,7 @@
 #!/bin/bash
 # usage: thorough.sh <outdir> [ids...]  - thorough tier of every check (3 at a time), summary in <outdir>/summary.log
 out=$1; shift; mkdir -p $out
-ids=${@:-C18 C01 C02 C09 C16 C04 C05 C03 C06 C07 C08 C10 C11 C12 C13 C14 C15 C17 C19 C20 X01 X02}
+ids=${@:-C18 C01 C02 C09 C16 C04 C05 C03 C06 C07 C08 C10 C11 C12 C13 C14 C15 C17 C19 C20 X01 X02 X03}
 cd /verif
 run() { id=$1; s=$(date +%s); ./check $id --tier thorough > $out/$id.out 2>&1; rc=$?; e=$(date +%s); echo "$id exit=$rc $((e-s))s known=$(grep -c '^KNOWN-FINDING' $out/$id.out)" >> $out/summary.log; }
 export -f run; export out
